@@ -196,6 +196,10 @@ func (s *ServerDnsListener) onMessage(m *dns.Msg, remoteAddr net.Addr) (*dns.Msg
 	serializer := s.DefaultSerializer
 	userId := uint16(0)
 
+	if len(m.Question) == 0 {
+		return nil, errors.Errorf("Message without a question -- ignoring")
+	}
+
 	request := commands.ComposeRequest(m, s.DefaultSerializer.Domain)
 	for _, c := range commands.Commands {
 		if c.IsOfType(request) {
